@@ -5,8 +5,8 @@
   * `pyndl.count.save_counter`/`load_counter` (/repo/pyndl/count.py:165-192)
 
   Mathlib-free.  Scalars are an arbitrary type `R` with `+ - /`, `0`, a cast
-  from `Nat` and a decidable `≤` (ℚ in the driver, any linearly ordered field
-  in the proofs).  `random.Random(seed).shuffle` is *not* modelled: the model
+  from `Int` (for `sample_size`) and a decidable `≤` (ℚ in the driver, any
+  linearly ordered field in the proofs).  `random.Random(seed).shuffle` is *not* modelled: the model
   receives the already shuffled list, i.e. the theorems hold for every
   permutation the shuffle could produce.
 -/
@@ -15,7 +15,7 @@ namespace Pyndl.Band
 /-! ## bandsample -/
 
 section Sample
-variable {α R : Type} [Add R] [Sub R] [Div R] [Zero R] [NatCast R] [LE R] [DecidableLE R]
+variable {α R : Type} [Add R] [Sub R] [Div R] [Zero R] [IntCast R] [LE R] [DecidableLE R]
 
 /-- preprocess.py:31-32 `[(word, freq) for word, freq in population.items() if freq >= cutoff]` -/
 def filterCutoff (cutoff : R) (pop : List (α × R)) : List (α × R) :=
@@ -122,24 +122,45 @@ deriving DecidableEq, Repr
     `index = 0`, plus one for the final evaluation of the loop guard -/
 def walkFuel (pop : List (α × R)) : Nat := 2 * pop.length + 1
 
+/-- preprocess.py:44-75: everything after the step has been computed (line
+    42), for an ARBITRARY step — whatever `sample_size` was (an `int` of either
+    sign, a `bool`, a `float`) and however the division rounded. -/
+def bandsampleRun (shuffled : List (α × R)) (step : R) : Result α R :=
+  let pop := sortByFreq shuffled
+  match walk step (walkFuel pop) ⟨pop, 0, 0, []⟩ with
+  | none => .diverged
+  | some (_, true) => .indexError
+  | some (s, false) => .ok s.sample
+
 /-- `bandsample(population, sample_size, cutoff=cutoff)` with the shuffle made
     explicit: `shuffled` must be a permutation of `filterCutoff cutoff population`
     (hypothesis of the theorems; the driver receives it from the harness, which
-    patches `random.Random(...).shuffle` to apply the same permutation). -/
-def bandsampleShuffled (shuffled : List (α × R)) (sampleSize : Nat) : Result α R :=
+    patches `random.Random(...).shuffle` to apply the same permutation).
+
+    DOMAIN of `sample_size`: a Python `int` of EITHER SIGN (`bool` counts as
+    0/1).  The code does not check it: `0` raises `ZeroDivisionError` at line 42;
+    a negative value makes the step negative, so (with positive frequencies)
+    every word is picked — `bandsample(pop, -1)` returns all retained words
+    (`C20.band_negative_size`).  A `float` sample_size is accepted by the code
+    as well; it is covered by the theorems about `bandsampleRun` (any step)
+    only. -/
+def bandsampleShuffled (shuffled : List (α × R)) (sampleSize : Int) : Result α R :=
   if sampleSize = 0 then .zeroDivision
-  else
-    let pop := sortByFreq shuffled
-    let step : R := totalFreq pop / (sampleSize : R)
-    match walk step (walkFuel pop) ⟨pop, 0, 0, []⟩ with
-    | none => .diverged
-    | some (_, true) => .indexError
-    | some (s, false) => .ok s.sample
+  else bandsampleRun shuffled (totalFreq (sortByFreq shuffled) / (sampleSize : R))
 
 /-- apply a permutation given as a list of source positions:
     result[k] = xs[perm[k]] (positions out of range are dropped) -/
 def applyPerm {β : Type} (xs : List β) (perm : List Nat) : List β :=
   perm.filterMap (fun i => xs[i]?)
+
+/-- the Python-level call, with the caller's object made explicit: line 31
+    rebinds the local name `population` to a NEW list built from
+    `population.items()`, and every later `sort` / `del` acts on that list; the
+    caller's Counter is not written to.  First component: the caller's
+    population after the call (`perm`: what the shuffle did). -/
+def bandsampleCall (cutoff : R) (perm : List Nat) (population : List (α × R)) (sampleSize : Int) :
+    List (α × R) × Result α R :=
+  (population, bandsampleShuffled (applyPerm (filterCutoff cutoff population) perm) sampleSize)
 
 end Sample
 
